@@ -12,10 +12,10 @@ open Manticore
 /-! ## the parameter and data blocks -/
 
 /-- `AddWordsFromBytesStream` then `Parameters.Marshal` (big-endian words both ways, so the byte
-    stream comes out unchanged except that an odd trailing byte `b` becomes the word `00 b`) -/
+    stream comes out unchanged, an odd trailing byte being padded with a zero after it) -/
 def wordsBytes : Bytes → Bytes
   | [] => []
-  | [b] => [0, b]
+  | [b] => [b, 0]
   | a :: b :: rest => a :: b :: wordsBytes rest
 
 def wordCountOf (andx : Bool) (rawP : Bytes) : Nat := andxWords andx + (rawP.length + 1) / 2
@@ -54,20 +54,28 @@ def splitParams (data : Bytes) : Outcome (Nat × Bytes × Bytes) :=
       else .ok (wc.toNat, rest.take (2 * wc.toNat), rest.drop (2 * wc.toNat))
     else .ok (0, [], rest)
 
-/-- `Data.Unmarshal` (with the two-byte guard) -/
-def splitData (data : Bytes) : Outcome Bytes :=
+/-- `Data.Unmarshal` (with the two-byte guard): the data bytes and what follows them in the input
+    buffer (`d.Bytes = data[:ByteCount]` keeps the capacity of the input slice) -/
+def splitData (data : Bytes) : Outcome (Bytes × Bytes) :=
   match data with
   | [] => .err
   | [_] => .err
   | b0 :: b1 :: rest =>
     let bc := b0.toNat + 256 * b1.toNat
-    if bc > 0 then (if rest.length < bc then .err else .ok (rest.take bc)) else .ok []
+    if bc > 0 then (if rest.length < bc then .err else .ok (rest.take bc, rest.drop bc)) else .ok ([], [])
+
+/-- capacity of the slice `GetBytesStream` builds by appending two bytes per word to `[]byte{}`
+    (Go runtime growth policy for byte slices: 8, then doubling) -/
+def streamCap (len : Nat) : Nat :=
+  if len = 0 then 0 else
+  if len ≤ 8 then 8 else if len ≤ 16 then 16 else if len ≤ 32 then 32 else if len ≤ 64 then 64
+  else if len ≤ 128 then 128 else if len ≤ 256 then 256 else 512
 
 def decodeCmd (C : Codecs) (c : Cmd) (env0 : Env) (data : Bytes) : Outcome Env :=
   match splitParams data with
   | .ok (wc, P, rest) =>
     match splitData rest with
-    | .ok D => runU C c env0 wc P D
+    | .ok (D, Dext) => runU C c env0 wc P D (List.replicate (streamCap P.length - P.length) 0) Dext
     | .err => .err
     | .panic => .panic
   | .err => .err
@@ -219,10 +227,10 @@ def guardedStmt (k : Known) : UStmt → Option Known
   | .makeInts f _ => some (k.forget f)
   | .forCountInt b w _ _ g =>          -- reads `count` integers with no guard inside the loop
     if covered k b (.mul w (.fint g)) then some Known.none else none
-  | .forRangeInt _ _ _ _ => none
+  | .forRangeInt b w _ f => if covered k b (.mul w (.flen f)) then some Known.none else none
   | .forCountSub _ _ _ _ _ => some Known.none   -- carries its own guard inside the loop
   | .whileFitsSub _ _ _ _ => some Known.none    -- the loop condition is the guard
-  | .cstrUnicode _ => none                      -- scans without a bound
+  | .cstrUnicode _ => some { leD := true }      -- never indexes past the end; returns an offset ≤ len(D)
   | .readArr3 b _ => if covered k b (.lit 12) then some { k with sub := none } else none
 def guardedStmts (k : Known) : List UStmt → Option Known
   | [] => some k
@@ -347,34 +355,135 @@ def consistentSlots (C : Codecs) (env : Env) : List Slot → Bool
           | _ => false)
       | _ => false) && consistentSlots C env r
 
-def consistent (C : Codecs) (c : Cmd) (env : Env) : Bool :=
-  match layoutU c.unmarshal, runM C c env with
-  | some u, .ok s =>
-    consistentSlots C s.env u && s.P.length % 2 == 0 && wordCountOf c.isAndX s.P ≤ 255 && s.D.length ≤ 65535 &&
-    (s.P.length > 0 || s.D.length > 0 || c.fields.isEmpty)
-  | _, _ => false
+/-- a nested value is in its type's domain: it encodes, and its own encoding decodes back to it,
+    consuming exactly what was written -/
+def tupOk (C : Codecs) (typ : String) (v : Tup) : Bool :=
+  match C.enc typ v with
+  | .ok (bs, v') => (match C.dec typ bs with | .ok (d, k) => k == bs.length && d == v' | _ => false)
+  | _ => false
 
-/-- known C04 findings, decided on the extracted programs (not on the failing input):
+/-- integers fit the width the marshal program gives them -/
+def intsFit (env : Env) : List MStmt → Bool
+  | [] => true
+  | .int _ w _ f :: r => (match env.get f with | some (.n x) => x < 256 ^ w | _ => false) && intsFit env r
+  | .quad _ w _ f :: r => (match env.get f with | some (.n x) => x < 256 ^ w | _ => false) && intsFit env r
+  | .u8 _ f :: r => (match env.get f with | some (.n x) => x < 256 | _ => false) && intsFit env r
+  | .forInt _ w _ f :: r => (match env.get f with | some (.ns xs) => xs.all (· < 256 ^ w) | _ => false) && intsFit env r
+  | .ifNonZero _ body :: r => intsFit env body && intsFit env r
+  | .ifNonZeroArr _ body :: r => intsFit env body && intsFit env r
+  | .ifWordCount _ body :: r => intsFit env body && intsFit env r
+  | _ :: r => intsFit env r
+
+/-- the relations between fields the unmarshal program relies on: a buffer read with length
+    `int(c.G)` has exactly that many bytes, a counted list has exactly `c.G` entries, padding has the
+    computed length, fixed arrays have their size, nested values are in their domain.  Window sizes
+    and entry sizes of the program are *not* consulted: they are the library's business. -/
+def relationsHold (C : Codecs) (env : Env) : (pad : Nat) → List UStmt → Bool
+  | _, [] => true
+  | pad, .readBytes _ f e :: r =>
+    (match env.get f, e with
+      | some (.b bs), .pad => bs.length == pad
+      | some (.b bs), e => evalEnv env e == some bs.length
+      | _, _ => false) && relationsHold C env pad r
+  | pad, .readArr _ f n :: r => (match env.get f with | some (.b bs) => bs.length == n | _ => false) && relationsHold C env pad r
+  | pad, .readSub _ f typ _ _ _ _ :: r => (match env.get f with | some (.t v) => tupOk C typ v | _ => false) && relationsHold C env pad r
+  | pad, .forCountInt _ _ _ f g :: r =>
+    (match env.get f, env.get g with | some (.ns xs), some (.n k) => xs.length == k | _, _ => false) && relationsHold C env pad r
+  | pad, .forCountSub _ f g typ _ :: r =>
+    (match env.get f, env.get g with | some (.ts vs), some (.n k) => vs.length == k && vs.all (tupOk C typ) | _, _ => false) && relationsHold C env pad r
+  | pad, .whileFitsSub _ f typ _ :: r =>
+    (match env.get f with | some (.ts vs) => vs.all (tupOk C typ) | _ => false) && relationsHold C env pad r
+  | pad, .cstrUnicode f :: r =>
+    -- a UTF-16 string: an even number of bytes, no 0x0000 unit
+    (match env.get f with | some (.b bs) => bs.length % 2 == 0 && (cstrUnicode (bs ++ [0, 0])).1 == bs | _ => false) && relationsHold C env pad r
+  | _, .setPad e :: r => (match evalEnv env e with | some n => relationsHold C env n r | none => false)
+  | pad, .padRoundUp :: r => relationsHold C env (if pad % 2 = 1 then pad + 1 else pad) r
+  | pad, .ifWordCount _ body :: r => relationsHold C env pad body && relationsHold C env pad r
+  | pad, _ :: r => relationsHold C env pad r
+
+/-- C04 "internally consistent" -/
+def consistent (C : Codecs) (c : Cmd) (env : Env) : Bool :=
+  match runM C c env with
+  | .ok s =>
+    intsFit s.env c.marshal && relationsHold C s.env 0 c.unmarshal &&
+    s.P.length % 2 == 0 && wordCountOf c.isAndX s.P ≤ 255 && s.D.length ≤ 65535 &&
+    (s.P.length > 0 || s.D.length > 0 || c.fields.isEmpty) && s.head.isEmpty
+  | _ => false
+
+/-! known C04 findings, decided on the extracted programs (not on the failing input):
     `andx-not-consumed`: an AndX command whose Unmarshal reads parameter fields from offset 0 although
     its Marshal put the two AndX words first; `field-not-marshalled`: a declared field no marshal
-    statement emits. -/
+    statement emits; … -/
+mutual
+def emittedStmt : MStmt → List String
+  | .ifNonZero f body => f :: emittedDeep body
+  | .ifNonZeroArr f body => f :: emittedDeep body
+  | .ifWordCount _ body => emittedDeep body
+  | .subHead f _ => [f]
+  | .int _ _ _ f | .quad _ _ _ f | .u8 _ f | .bytes _ f | .arr _ f | .sub _ f _ | .forSub _ f _
+  | .forInt _ _ _ f => [f]
+  | .setFmt _ _ | .assignLen _ _ _ => []
 def emittedDeep : List MStmt → List String
   | [] => []
-  | .ifNonZero f body :: r => f :: emittedDeep body ++ emittedDeep r
-  | .ifNonZeroArr f body :: r => f :: emittedDeep body ++ emittedDeep r
-  | .ifWordCount _ body :: r => emittedDeep body ++ emittedDeep r
-  | .subHead f _ :: r => f :: emittedDeep r
-  | s :: r => (match emittedField s with | some (_, f) => [f] | none => []) ++ emittedDeep r
+  | s :: r => emittedStmt s ++ emittedDeep r
+end
+
+mutual
+/-- fields an unmarshal program assigns -/
+def readStmt : UStmt → List String
+  | .ifWordCount _ body => readDeep body
+  | .readInt _ _ _ f | .readQuad _ _ _ f | .readU8 _ f | .readBytes _ f _
+  | .readRest _ f | .readArr _ f _ | .readSub _ f _ _ _ _ _ | .forCountInt _ _ _ f _
+  | .forRangeInt _ _ _ f | .forCountSub _ f _ _ _ | .whileFitsSub _ f _ _
+  | .cstrUnicode f | .readArr3 _ f => [f]
+  | _ => []
+def readDeep : List UStmt → List String
+  | [] => []
+  | s :: r => readStmt s ++ readDeep r
+end
+
+inductive RtFinding
+  | andxNotConsumed | fieldNotMarshalled | fieldNotUnmarshalled | readsWholeBuffer | conditionalField | fixedEntrySize
+  deriving DecidableEq, Repr, Inhabited
+
+def RtFinding.key : RtFinding → String
+  | .andxNotConsumed => "andx-not-consumed"
+  | .fieldNotMarshalled => "field-not-marshalled"
+  | .fieldNotUnmarshalled => "field-not-unmarshalled"
+  | .readsWholeBuffer => "reads-whole-buffer"
+  | .conditionalField => "conditional-field"
+  | .fixedEntrySize => "fixed-entry-size"
+
+def knownRtKind (c : Cmd) : Option RtFinding :=
+  let em := emittedDeep c.marshal
+  let rd := readDeep c.unmarshal
+  if c.isAndX && (c.marshal.filterMap emittedField).any (·.1 == .P) then some .andxNotConsumed
+  else if (c.fields.map (·.1)).any (fun f => !em.contains f) then some .fieldNotMarshalled
+  else if em.any (fun f => !rd.contains f) then some .fieldNotUnmarshalled
+  -- two or more nested values each decoded from the start of the block instead of from `offset`
+  else if (c.unmarshal.filter (fun s => match s with | .readSub _ _ _ _ true _ _ => true | _ => false)).length ≥ 2 then
+    some .readsWholeBuffer
+  -- a field emitted only under a condition on `WordCount` or on its own value, read back under another
+  else if c.marshal.any (fun s => match s with | .ifWordCount .. | .ifNonZero .. | .ifNonZeroArr .. => true | _ => false) then
+    some .conditionalField
+  -- list entries decoded through a fixed window whose size is not the entries' encoded size
+  else if c.unmarshal.any (fun s => match s with | .whileFitsSub .. => true | _ => false) then
+    some .fixedEntrySize
+  else none
 
 def knownRt (c : Cmd) : String :=
-  let em := emittedDeep c.marshal
-  if c.isAndX && (c.marshal.filterMap emittedField).any (·.1 == .P) then "andx-not-consumed:" ++ c.name
-  else if (c.fields.map (·.1)).any (fun f => !em.contains f) then "field-not-marshalled:" ++ c.name
-  else ""
+  match knownRtKind c with
+  | some k => k.key ++ ":" ++ c.name
+  | none => ""
 
 /-- known C05 findings: a nested value whose Go encoder is big-endian (`SMB_FILE_ATTRIBUTES`, pinned
     by the repository's own tests) inside this command -/
-def knownEnc (c : Cmd) (_env : Env) : String :=
-  if c.marshal.any (fun s => match s with | .sub _ _ "SMB_FILE_ATTRIBUTES" => true | _ => false) then "be:SMB_FILE_ATTRIBUTES" else ""
+def knownEnc (c : Cmd) (env : Env) : String :=
+  if c.marshal.any (fun s => match s with | .sub _ _ "SMB_FILE_ATTRIBUTES" => true | _ => false) then "be:SMB_FILE_ATTRIBUTES"
+  -- buffer format 0x03 is written as `03 len16 bytes 00` (MS-CIFS: `03 bytes 00`)
+  else if c.marshal.any (fun s => match s with
+      | .sub _ f "SMB_STRING" => (match env.get f with | some (.t (3 :: _, _)) => true | _ => false)
+      | _ => false) then "fmt3:SMB_STRING"
+  else ""
 
 end Manticore.SmbIR
